@@ -111,7 +111,10 @@ def parse_index(data):
     stray end tag, no duplicate attribute, nothing but the document regress-html.c writes; a rejection is the oracle
     failure index-html-malformed); c14.py only cross-checks the two readings on cases whose names are plain."""
     p = _P()
-    p.feed(data.decode('latin1'))
+    # html.c escapes nothing, so every & of the page is a literal byte of a name (or of the two arrows render_duration
+    # writes as &#8600; / &#8599;): escape them all before html.parser decodes character references, so that a suite
+    # called &amp;/x or a/&lt; is read back as the bytes the page holds (the strict reader decodes nothing either)
+    p.feed(data.decode('latin1').replace('&', '&amp;'))
     tables = p.root.find_all('table')
     if len(tables) != 1:
         raise ValueError('expected one table, found %d' % len(tables))
@@ -143,7 +146,7 @@ def parse_index(data):
         span = dur.find_all('span')
         arrow = span[0].alltext() if span else ''
         c['duration'] = dur.text
-        c['delta'] = {'': 'NONE', '↘': 'FASTER', '↗': 'SLOWER'}.get(arrow, 'arrow?' + arrow)
+        c['delta'] = {'': 'NONE', '&#8600;': 'FASTER', '&#8599;': 'SLOWER'}.get(arrow, 'arrow?' + arrow)
         a = hdr['changelog'][j].find_all('a')
         c['cvs'] = a[0].attrs.get('href') if a else None
         if not a and hdr['changelog'][j].alltext() != 'n/a':
